@@ -51,21 +51,25 @@ def rule_V1_visit(ctx, visitors=None, floor=450):
     return r
 
 
-def _always_exits(body):
-    """True if no path falls off the end of `body` (every path returns or raises)."""
+def _always_exits(body, noreturn=None):
+    """True if no path falls off the end of `body` (every path returns or raises).  noreturn: names of methods of the same object that never
+    return normally (`self.fail(node)` as a statement then ends the path)."""
     for s in body:
         if isinstance(s, (ast.Return, ast.Raise)):
             return True
+        if noreturn and isinstance(s, ast.Expr) and isinstance(s.value, ast.Call) and isinstance(s.value.func, ast.Attribute) and \
+                isinstance(s.value.func.value, ast.Name) and s.value.func.value.id == 'self' and s.value.func.attr in noreturn:
+            return True
         if isinstance(s, ast.If):
-            if s.orelse and _always_exits(s.body) and _always_exits(s.orelse):
+            if s.orelse and _always_exits(s.body, noreturn) and _always_exits(s.orelse, noreturn):
                 return True
         elif isinstance(s, ast.Try):
-            if s.finalbody and _always_exits(s.finalbody):
+            if s.finalbody and _always_exits(s.finalbody, noreturn):
                 return True
-            if _always_exits(s.body + (s.orelse or [])) and all(_always_exits(h.body) for h in s.handlers):
+            if _always_exits(s.body + (s.orelse or []), noreturn) and all(_always_exits(h.body, noreturn) for h in s.handlers):
                 return True
         elif isinstance(s, ast.With):
-            if _always_exits(s.body):
+            if _always_exits(s.body, noreturn):
                 return True
         elif isinstance(s, ast.While):
             if isinstance(s.test, ast.Constant) and s.test.value and \
@@ -73,9 +77,19 @@ def _always_exits(body):
                 return True
         elif isinstance(s, ast.Match):
             cases = s.cases
-            if cases and all(_always_exits(c.body) for c in cases) and \
+            if cases and all(_always_exits(c.body, noreturn) for c in cases) and \
                     any(isinstance(c.pattern, ast.MatchAs) and c.pattern.pattern is None and c.guard is None for c in cases):
                 return True
+    return False
+
+
+def _raises_on_every_path(body):
+    """every path through body ends in a `raise` (no return at all: checked by the caller)"""
+    for s in body:
+        if isinstance(s, ast.Raise):
+            return True
+        if isinstance(s, ast.If) and s.orelse and _raises_on_every_path(s.body) and _raises_on_every_path(s.orelse):
+            return True
     return False
 
 
@@ -102,7 +116,14 @@ def rule_V2(ctx, floor=300):
                 continue
             key = '%s.%s' % (v.qual, mname)
             r.inst(key, sample=key)
-            if not _always_exits(fn.body):
+            # helper methods of the class (MRO) whose every path raises: a call of one as a statement ends the path like a raise
+            noreturn = set()
+            for k in ix.mro(v):
+                for hn, hf in k.methods.items():
+                    if not hn.startswith('visit_') and hf.body and not any(isinstance(x, (ast.Return, ast.Yield, ast.YieldFrom)) for x in walk_no_nested(hf)) \
+                            and _raises_on_every_path(hf.body):
+                        noreturn.add(hn)
+            if not _always_exits(fn.body, noreturn):
                 r.violate(key, v.module.rel, fn.lineno, 'a path falls off the end of %s and returns None (the visited node is deleted from the tree)' % mname)
             for n in walk_no_nested(fn):
                 if isinstance(n, ast.Return) and n.value is None:
